@@ -93,7 +93,7 @@ func (t *OptionalType) Get(key string) (value px.Value, ok bool) {
 }
 
 func (t *OptionalType) IsAssignable(o px.Type, g px.Guard) bool {
-	return GuardedIsAssignable(o, undefTypeDefault, g) || GuardedIsAssignable(t.typ, o, g)
+	return GuardedIsAssignable(undefTypeDefault, o, g) || GuardedIsAssignable(t.typ, o, g)
 }
 
 func (t *OptionalType) IsInstance(o px.Value, g px.Guard) bool {
